@@ -6,7 +6,7 @@ import common
 import planar
 from common import rat, tf
 
-MODULE = ['GeoVerif.Props.C01', 'GeoVerif.Props.C01Convex']
+MODULE = ['GeoVerif.Props.C01', 'GeoVerif.Props.C01Convex', 'GeoVerif.Props.C01Parity']
 THEOREMS = ['GV.C01.' + t for t in (
     'pointInRing_eq_spec', 'pointInRing_boundary_false', 'pointInRing_inclB', 'insideEO_perm', 'insideEO_flip',
     'pointInRing_rotate', 'pointInRing_reverse', 'ringContains_eq_spec', 'ringContains_rotate', 'ringContains_reverse', 'bbox_prefilter_sound',
@@ -15,7 +15,14 @@ THEOREMS = ['GV.C01.' + t for t in (
     # Props/C01Convex.lean: crossing parity = geometric insideness for convex rings and triangles (no Jordan assumption)
     'separated_pip_false', 'strictConvexCCW_weak_and_turns', 'convex_pip_iff', 'convex_pip_inclB_iff',
     'triangle_convex', 'triangle_swap', 'triangle_pip_iff', 'triangle_pip_inclB_iff', 'triangle_edge_false',
-    'triangle_boundary_iff')]
+    'triangle_boundary_iff',
+    # Props/C01Parity.lean: the crossing parity is constant along EVERY segment / polyline that avoids the ring (any
+    # ring, any direction); False when joined to a point outside the bounding box; the same for polygons with holes
+    'pointInRing_shear', 'parityConst_all', 'parityConst_all_inclB', 'seg_meets_of_pip_ne', 'pip_const_on_paths',
+    'pip_false_of_not_inBBox', 'pip_false_of_path_to_far', 'pip_true_separated', 'pip_true_path_end_inBBox',
+    'ringContains_eq_pointInRing', 'polyContains_eq_rings', 'polyContains_const_seg', 'polyContains_const_on_paths',
+    'polyContains_false_of_path_to_far', 'polyContains_true_separated', 'polyContains_false_of_path_into_hole',
+    'lRing_path')] + ['GV.PipParity.segAvoidsC_sound']
 
 
 def _coord(x, y):
